@@ -25,6 +25,24 @@ theorem tie_locateBlocksCall : Sync.Src.locateBlocksCall = Gen.SyncFacts.locateB
 theorem tie_locateBlocksSha : Sync.Src.locateBlocksSha = Gen.SyncFacts.locateBlocksSha := by decide
 theorem tie_handlerCalls : Sync.Src.handlerCalls = Gen.SyncFacts.handlerCalls := by decide
 
+theorem tie_handleGetBlocksMsgIfs : Sync.Src.handleGetBlocksMsgIfs = Gen.SyncFacts.handleGetBlocksMsgIfs := by decide
+theorem tie_handleGetBlocksMsgIndexing : Sync.Src.handleGetBlocksMsgIndexing = Gen.SyncFacts.handleGetBlocksMsgIndexing := by decide
+theorem tie_handleGetBlocksMsgSha : Sync.Src.handleGetBlocksMsgSha = Gen.SyncFacts.handleGetBlocksMsgSha := by decide
+theorem tie_handleGetHeadersMsgIfs : Sync.Src.handleGetHeadersMsgIfs = Gen.SyncFacts.handleGetHeadersMsgIfs := by decide
+theorem tie_handleGetHeadersMsgIndexing : Sync.Src.handleGetHeadersMsgIndexing = Gen.SyncFacts.handleGetHeadersMsgIndexing := by decide
+theorem tie_handleGetHeadersMsgSha : Sync.Src.handleGetHeadersMsgSha = Gen.SyncFacts.handleGetHeadersMsgSha := by decide
+theorem tie_handleGetBlockMsgIfs : Sync.Src.handleGetBlockMsgIfs = Gen.SyncFacts.handleGetBlockMsgIfs := by decide
+theorem tie_handleGetBlockMsgIndexing : Sync.Src.handleGetBlockMsgIndexing = Gen.SyncFacts.handleGetBlockMsgIndexing := by decide
+theorem tie_handleGetBlockMsgSha : Sync.Src.handleGetBlockMsgSha = Gen.SyncFacts.handleGetBlockMsgSha := by decide
+theorem tie_handleGetMerkleBlockMsgIfs : Sync.Src.handleGetMerkleBlockMsgIfs = Gen.SyncFacts.handleGetMerkleBlockMsgIfs := by decide
+theorem tie_handleGetMerkleBlockMsgIndexing : Sync.Src.handleGetMerkleBlockMsgIndexing = Gen.SyncFacts.handleGetMerkleBlockMsgIndexing := by decide
+theorem tie_handleGetMerkleBlockMsgSha : Sync.Src.handleGetMerkleBlockMsgSha = Gen.SyncFacts.handleGetMerkleBlockMsgSha := by decide
+
+/-- the handlers never index or slice the located result (an empty result cannot panic) -/
+theorem tie_handlers_do_not_index :
+    Gen.SyncFacts.handleGetBlocksMsgIndexing = [] ∧ Gen.SyncFacts.handleGetHeadersMsgIndexing = [] ∧
+    Gen.SyncFacts.handleGetBlockMsgIndexing = [] ∧ Gen.SyncFacts.handleGetMerkleBlockMsgIndexing = [] := by decide
+
 /-- the model's own constants are the tied ones -/
 theorem tie_model_maxima : Sync.maxNumOfBlocksPerMsg = Gen.SyncFacts.maxNumOfBlocksPerMsg ∧
     Sync.maxNumOfHeadersPerMsg = Gen.SyncFacts.maxNumOfHeadersPerMsg := by decide
